@@ -42,11 +42,14 @@
       after the successful close() are merged with those calls: SIGINT/SIGTERM
       are blocked there (they are only acted on in halt()/sti()), and SIGKILL
       performs no cleanup anyway, so no observable state lies in between.
-    * When several handled signals are pending as sigsuspend wakes, the one
-      whose handler ran last wins (`caught_index`).  A SIGINT/SIGTERM that
-      arrives together with the final SIGUSR2 may therefore be LOST (observed
-      on the real binary for SIGTERM: exit status 0).  The oracle bit
-      `swallow` decides; both outcomes are allowed.
+    * The main thread reacts to a pending SIGINT/SIGTERM asynchronously: the
+      sub-threads may do any number of further reads/writes first (oracle bit
+      `defer`).  When several handled signals are pending as sigsuspend
+      wakes, the one whose handler ran last wins (`caught_index`).  A
+      SIGINT/SIGTERM that arrives together with the final SIGUSR2 may
+      therefore be LOST (observed on the real binary for SIGTERM sent at the
+      last write: exit status 0, operand done).  `defer` at the end of work()
+      is that case; both outcomes are allowed.
     * Nobody else modifies the two paths during the run; the two path names
       are different strings and not aliases of one file.
     * stderr itself is healthy (a failing message write would turn every
@@ -148,8 +151,11 @@ structure Inj where
   /-- a signal arrives just before / just after the call -/
   sigBefore : Option Sig := none
   sigAfter : Option Sig := none
-  /-- end of work(): a pending SIGINT/SIGTERM loses against SIGUSR2 -/
-  swallow : Bool := false
+  /-- during work(): the main thread (in sigsuspend) has not yet reacted to a
+      pending SIGINT/SIGTERM — signal delivery is asynchronous, the sub-threads
+      go on; at the end of work(): the signal loses against SIGUSR2 (both
+      handlers run, `caught_index` keeps the last) and is LOST -/
+  defer : Bool := false
   /-- the `(void)unlink(opathn)` inside cleanup() fails -/
   cleanupErr : Bool := false
   deriving DecidableEq, Repr
@@ -262,8 +268,8 @@ def exec (sc : Scn) (c : Cfg) (inj : Inj) : Cfg :=
   | .cli => { c with blocked := true, pc := if sc.force then .unlinkOut else .openOut }
   | .unlinkOut =>
     match c.fs sc.outP, inj.err with
-    | none, _ => { c with pc := .openOut }                -- ENOENT: silent
-    | some _, some e =>
+    | none, none => { c with pc := .openOut }             -- ENOENT: silent
+    | _, some e =>
       { c with stderr := c.stderr || (e != ENOENT), pc := .openOut }  -- infox
     | some _, none => { c with fs := c.fs.set sc.outP none, pc := .openOut }
   | .openOut =>
@@ -274,7 +280,7 @@ def exec (sc : Scn) (c : Cfg) (inj : Inj) : Cfg :=
       { c with fs := c.fs.set sc.outP (some (newFile sc c)), opathn := true,
                pc := .work sc.ops }
   | .work (op :: todo) =>
-    if c.pendInt || c.pendTerm then haltSignal sc c inj else
+    if (c.pendInt || c.pendTerm) && !inj.defer then haltSignal sc c inj else
     match op, inj.err with
     | .corrupt, _ => fatal sc c inj true false false
     | .read, some e => fatal sc c inj (!silent e) false false
@@ -288,7 +294,7 @@ def exec (sc : Scn) (c : Cfg) (inj : Inj) : Cfg :=
         pc := .work todo }
   | .work [] =>
     if c.pendInt || c.pendTerm then
-      if inj.swallow then { c with pendInt := false, pendTerm := false, pc := .fchown }
+      if inj.defer then { c with pendInt := false, pendTerm := false, pc := .fchown }
       else haltSignal sc c inj
     else { c with pc := .fchown }
   | .fchown =>
@@ -334,17 +340,29 @@ def exec (sc : Scn) (c : Cfg) (inj : Inj) : Cfg :=
   | .exit => { c with pc := .ended (.exit (if c.warned then 4 else 0)) }
   | .ended _ => c
 
+/-- The signal (if any) that arrives just before the call. -/
+def before (c : Cfg) (inj : Inj) : Cfg :=
+  match inj.sigBefore with
+  | some sg => arrive c sg
+  | none => c
+
+/-- The signal (if any) that arrives just after the call; `c1` is the
+configuration before the call, `c2` after it. -/
+def after (c1 c2 : Cfg) (inj : Inj) : Cfg :=
+  match inj.sigAfter with
+  | some .kill =>
+    -- SIGKILL lands right after the call: its file-system effect is there,
+    -- the program's reaction (message, warned flag) is not
+    if c2.isEnded then c2
+    else { arrive c2 .kill with stderr := c1.stderr, warned := c1.warned }
+  | some sg => if c2.isEnded then c2 else arrive c2 sg
+  | none => c2
+
 /-- One step: signal before, the call, signal after. -/
 def step (sc : Scn) (c : Cfg) (inj : Inj) : Cfg :=
   if c.isEnded then c else
-  let c1 := match inj.sigBefore with
-    | some sg => arrive c sg
-    | none => c
-  if c1.isEnded then c1 else
-  let c2 := exec sc c1 inj
-  match inj.sigAfter with
-  | some sg => if c2.isEnded then c2 else arrive c2 sg
-  | none => c2
+  if (before c inj).isEnded then before c inj
+  else after (before c inj) (exec sc (before c inj) inj) inj
 
 /-- Every configuration the process can be in (= every prefix of the step
 sequence, for every behaviour of the environment). -/
